@@ -1,10 +1,14 @@
 -- Root of the `SierraModel` library: executable models (import-free) and property theorems.
+import SierraModel.Props.C01
+import SierraModel.Props.C02
+import SierraModel.Props.C04
 import SierraModel.Props.C08
 import SierraModel.Props.C12
 import SierraModel.Props.C13
 import SierraModel.Props.C14
 import SierraModel.Props.C17
 import SierraModel.Props.C18
+import SierraModel.Props.C19
 import SierraModel.Props.C21
 import SierraModel.Props.C23
 import SierraModel.Props.C24
